@@ -175,13 +175,15 @@ mut("c06_line_iteration_rstrip", "C06", [
      '''        lines = [line.rstrip("\\n") for line in fp]'''),
 ], "CRLF reaching from_file untranslated: '\\r' stays on every line")
 
-mut("c06_unknown_section_warning_only_after_tracks", "C06", [
+mut("c06_unknown_difficulty_like_section_silent", "C06", [
     ("chartparse/chart.py",
      '''            elif header_tag not in cls._required_header_tags:
                 logger.warning(cls._unhandled_data_section_log_msg_tmpl.format(header_tag))''',
-     '''            elif header_tag not in cls._required_header_tags and instrument_tracks:
+     '''            elif header_tag not in cls._required_header_tags and not any(
+                header_tag.startswith(d.value) for d in Difficulty
+            ):
                 logger.warning(cls._unhandled_data_section_log_msg_tmpl.format(header_tag))'''),
-], "an unknown section placed before every instrument section (section order) is not reported")
+], "an unknown section whose name starts like a difficulty (e.g. ExpertGuitar) is ignored without being reported")
 
 # ---------------------------------------------------------------------------------------- C13
 mut("c13_empty_selection_means_all", "C13", [
